@@ -9,11 +9,18 @@ fn fail(msg: &str) -> i32 {
 }
 
 fn probe(root: &str, detrand: u64) -> (String, String) {
+    probe_capped(root, detrand, 0)
+}
+
+fn probe_capped(root: &str, detrand: u64, cap: u32) -> (String, String) {
     let trace = format!("{root}.probe.trace");
     let _ = std::fs::remove_file(&trace);
     let mut env = proc::sim_env(detrand);
     env.push(("SIM_ROOT".into(), root.to_string()));
     env.push(("SIM_TRACE".into(), trace.clone()));
+    if cap > 0 {
+        env.push(("SIM_IOCAP".into(), cap.to_string()));
+    }
     let exe = proc::self_exe();
     let o = proc::run(RunSpec { exe: &exe, args: vec!["probe-hash".into(), format!("{root}/probe.txt")], cwd: Some(root), env, stdin: vec![], timeout_ms: 20_000 }).expect("spawn probe");
     let t = std::fs::read_to_string(&trace).unwrap_or_default();
@@ -67,7 +74,12 @@ pub fn main_selftest(mode: &str) -> i32 {
     if !(t1.contains(" open ") && t1.contains(" read fd ")) {
         return fail(&format!("interposer traced no open/read of the probe file: {t1:?}"));
     }
-    println!("selftest: seam alive (hash keys controlled, file operations traced)");
+    let (c1, tc) = probe_capped(&root, 11, 2);
+    let capped_reads = tc.lines().filter(|l| l.contains(" read fd ")).count();
+    if c1 != a1 || capped_reads < 3 {
+        return fail(&format!("transfer cap: a 6-byte file under SIM_IOCAP=2 was read in {capped_reads} reads (want >= 3), same output: {}", c1 == a1));
+    }
+    println!("selftest: seam alive (hash keys controlled, file operations traced, transfer cap in force)");
     // 2. replay determinism: same seed => same event-log digest, in fresh processes, at several worker counts
     let (seeds, worker_counts): (Vec<u64>, Vec<usize>) = if mode == "quick" { (vec![1, 2], vec![2, 16]) } else { ((1..=12).collect(), vec![1, 4, 16]) };
     for engine in ["c01", "c19", "c20"] {
